@@ -395,6 +395,10 @@ def api_stage(chk, prop, bins, flavours, nprog, nops, seed_off=21, p_poison=0.08
         ops, exp = A.gen_program(rng, nops, p_poison=p_poison)
         progs.append((i, ops))
         exps[i] = exp
+    for ops, exp in A.fixed_programs():
+        i = len(progs)
+        progs.append((i, ops))
+        exps[i] = exp
     out = {}
     with concurrent.futures.ThreadPoolExecutor(max_workers=8) as ex:
         futs = {fl: [ex.submit(A.run_resilient, bins[fl], progs[k::3], 4096 if (fl != "inprocess" and k == 0) else None) for k in range(3) if progs[k::3]]
